@@ -70,6 +70,8 @@ var c20Templates = []string{
 	"while x > 4:\n    x = x - 1",
 	"def g():\n    # comment in a block\n    return 7",
 	"g()",
+	"for i in range(3):\n    x = = i",
+	"if x:\n    y = 1\n  z = 2",
 }
 
 var c20Noise = []string{"", "# note", "   ", "    # indented note", "\t"}
